@@ -235,5 +235,18 @@ PROPS["C11"] = dict(
          "inequalities (SqrtOK / CbrtOK); results outside the normal range are not claimed",
 )
 
+PROPS["C12"] = dict(
+    mc=[("MC_Transc", None)],
+    mc_workers=1,
+    drivers=["transc"],
+    attr=lambda ev, names: fam(ev, "a") and ev["op"] in ("exp", "ln", "log10", "pow") and any_in(names, {"transc", "val", "panic", "sys", "wf"}),
+    rule="Exp/Ln/Log10/Pow on seeded operands (1..3p digits, arguments near 1, tiny and huge Exp arguments up to the true "
+         "overflow threshold, integer and fractional Pow exponents, precision 1..34 weighted to <=16) accepted iff the result "
+         "is within one unit of an interval enclosure of the true value built from exact limb arithmetic (ExpEnclS); Pow with "
+         "a fractional exponent uses an untrusted hint for ln x that the spec verifies before use; integer powers are exact",
+    level_note="Trusted: TLC, the enclosure arithmetic of spec/Transc.tla (self-checked by MC_Transc: ordering, width, known "
+               "digits of e, exp(a+b), verified ln 10 literal, negative controls). Low volume: an enclosure costs 0.1-2 s.",
+)
+
 HOOK_COMMITS = ["9935482", "75960a2"]
 NOT_YET = {}
